@@ -178,6 +178,87 @@ for i, vx in enumerate(h.values):
                    tree="TwoDimensionallyHistogram(2,0,2,2,0,2)", bounds="2 symbolic (x,y) fills; grid and x-projection totals")
 
 
+GRID_TREES = {
+    "Bin2x2": ("HC.TwoDimensionallyHistogram(2, 0.0, 2.0, qx, 2, 0.0, 2.0, qy)", "-1.0 <= {v} < 3.0"),
+    "Sparse2D": ("HC.TwoDimensionallySparselyHistogram(1.0, qx, 1.0, qy)", "-2.0 <= {v} < 2.0"),
+    "Bin>Sparse": ("H.Bin(2, 0.0, 2.0, qx, H.SparselyBin(1.0, qy))", "-2.0 <= {v} < 2.0"),
+    "Sparse>Bin": ("H.SparselyBin(1.0, qx, H.Bin(2, 0.0, 2.0, qy))", "-2.0 <= {v} < 2.0"),
+    "Categorize>Bin": ("H.Categorize(lambda d: 'p' if d[0] > 0.5 else 'q', H.Bin(2, 0.0, 2.0, qy))", "-2.0 <= {v} < 3.0"),
+}
+
+
+def grid_numpy(name, timeout=90):
+    """get_2dgrid (plot/hist_numpy.py) with the real numpy: unit weights keep every cell content concrete, the routing
+    of the two symbolic (x, y) records is what the solver explores"""
+    expr, rng = GRID_TREES[name]
+    pre = " and ".join(rng.format(v=v) for v in ("x1", "y1", "x2", "y2"))
+    body = """
+from histogrammar.plot.hist_numpy import get_2dgrid, prepare_2dgrid
+h = fresh(MK, 1)[0]
+recs = [(x1, y1, None, 0.0), (x2, y2, None, 0.0)]
+for r in recs: h.fill(r)
+xl, yl, grid = get_2dgrid(h)
+xkeys, ykeys = prepare_2dgrid(h)
+if grid.shape != (len(ykeys), len(xkeys)) or len(xl) != len(xkeys) or len(yl) != len(ykeys): return "grid-shape-vs-labels"
+def cell(xk, yk):
+    sub = h.bins[xk] if hasattr(h, "bins") else h.values[xk]
+    if hasattr(sub, "bins"):
+        return sub.bins[yk].entries if yk in sub.bins else 0.0
+    return sub.values[yk].entries
+tot = 0.0
+for i, xk in enumerate(xkeys):
+    for j, yk in enumerate(ykeys):
+        if float(grid[j, i]) != cell(xk, yk): return "grid-cell-differs-from-bin-content"
+        tot += float(grid[j, i])
+# the grid holds exactly the weight that landed in regular (non-flow) cells
+want = 0.0
+subs = list(h.bins.values()) if hasattr(h, "bins") else list(h.values)
+for sub in subs:
+    inner = list(sub.bins.values()) if hasattr(sub, "bins") else list(sub.values)
+    for g in inner: want += g.entries
+if tot != want: return "grid-total-differs-from-in-range-weight"
+"""
+    return Harness(f"C13/grid-numpy/{name}", [("x1", "float"), ("y1", "float"), ("x2", "float"), ("y2", "float")], pre, body,
+                   timeout=timeout, setup=C13_SETUP + f"MK = lambda: {expr}\n", tree=expr,
+                   bounds="2 symbolic (x, y) records with unit weights; get_2dgrid/prepare_2dgrid through the real numpy (cell contents stay concrete)")
+
+
+def projections(name, timeout=120):
+    expr, rng = GRID_TREES[name]
+    pre = " and ".join(rng.format(v=v) for v in ("x1", "y1", "x2", "y2")) + " and w1 > 0.0 and w2 > 0.0"
+    body = """
+h = fresh(MK, 1)[0]
+recs = [((x1, y1, None, 0.0), w1), ((x2, y2, None, 0.0), w2)]
+for r, w in recs: h.fill(r, w)
+px = h.project_on_x(); py = h.project_on_y()
+def cells(hh):
+    return dict(hh.bins) if hasattr(hh, "bins") and isinstance(hh.bins, dict) else dict(enumerate(hh.values))
+cx, cy = cells(px), cells(py)
+inner = 0.0
+for xk, sub in cells(h).items():
+    row = 0.0
+    for yk, g in cells(sub).items():
+        row = row + g.entries
+        inner = inner + g.entries
+    if (cx[xk].entries if xk in cx else 0.0) != row: return "x-projection-bin-differs-from-row-sum"
+sx = 0.0
+for g in cx.values(): sx = sx + g.entries
+sy = 0.0
+for g in cy.values(): sy = sy + g.entries
+if sx != inner: return "x-projection-total-differs-from-in-range-weight"
+if sy != inner: return "y-projection-total-differs-from-in-range-weight"
+for yk, g in cy.items():
+    col = 0.0
+    for xk, sub in cells(h).items():
+        c = cells(sub)
+        if yk in c: col = col + c[yk].entries
+    if g.entries != col: return "y-projection-bin-differs-from-column-sum"
+"""
+    return Harness(f"C13/projection/{name}", [("x1", "float"), ("y1", "float"), ("x2", "float"), ("y2", "float"), ("w1", "float"), ("w2", "float")],
+                   pre, body, timeout=timeout, setup=C13_SETUP + f"MK = lambda: {expr}\n", tree=expr,
+                   bounds="2 symbolic (x, y) records with symbolic positive weights; project_on_x / project_on_y vs the cells")
+
+
 def categorize_views(timeout=60):
     body = """
 h = fresh(MK, 1)[0]
@@ -214,5 +295,9 @@ def harnesses(tier):
     out.append(list_views("CentrallyBin", "H.CentrallyBin([1.0, 2.0, 4.0], qx)", [1.0, 2.0, 4.0], timeout=120 if tier == "quick" else 400))
     out.append(list_views("IrregularlyBin", "H.IrregularlyBin([0.0, 1.0, 2.0], qx)", [0.0, 1.0, 2.0], timeout=120 if tier == "quick" else 400))
     out.append(grid2d())
+    for n in GRID_TREES:
+        out.append(grid_numpy(n))
+    for n in ("Bin2x2", "Sparse2D"):
+        out.append(projections(n))
     out.append(categorize_views())
     return out
